@@ -18,6 +18,11 @@ def impl_eval(case):
     cfg = cfg_of(case)
     msg = iu.dict_unwire(case['msg'])
     codec, hexbm = case['codec'], bool(case['hex'])
+    if case.get('tzmin') is not None:
+        # date-time values that carry a time zone: the wire format has none — the element is the digits of the value given
+        import datetime as _dt
+        tz = _dt.timezone(_dt.timedelta(minutes=case['tzmin']))
+        msg = {k: (v.replace(tzinfo=tz) if isinstance(v, _dt.datetime) else v) for k, v in msg.items()}
     o1, data, ex = iu.obs_dumps(lambda: iso8583.dumps(dict(msg), encoding=codec, iso_config=cfg, hex_bitmap=hexbm))
     why = None
     if data is not None and len(case['msg']) % 4 == 0:
@@ -144,6 +149,16 @@ def explore(run, tier):
                 for extra in (1, 2, w, 40):
                     v = (iu.text(rng, codec, w + extra).replace(' ', 'x') or 'x') if (b + extra) % 2 else 'A' * w + ' ' * (extra - 1) + 'Z'
                     cases.append(c01.mk('pkg', codec, (b + ci) % 2, {'MTI': '1240', f'DE{b}': v}, {}))
+    # date-time elements given as zone-AWARE values (UTC, +10:00, -05:30, +14:00): rendered from the value's own fields
+    import datetime as _dt
+    for b in bits:
+        fc = pkg[str(b)]
+        if fc.get('field_python_type') == 'datetime':
+            for ci, tzmin in enumerate((0, 600, -330, 840, -720)):
+                for dtv in (_dt.datetime(2020, 1, 2, 3, 4, 5), _dt.datetime(2024, 2, 29, 23, 59, 58), _dt.datetime(1999, 12, 31, 0, 0, 0)):
+                    c = c01.mk('pkg', codecs3[ci % 3], ci % 2, {'MTI': '1240', f'DE{b}': dtv}, {})
+                    c['tzmin'] = tzmin
+                    cases.append(c)
     # characters the encoding does not have, in fixed / variable text elements and in PDS values
     for codec in codecs3 + ['ascii']:
         for ch in ('\u20ac', '\u0141', '\u0179', '\u3042'):
